@@ -325,6 +325,60 @@ func c18ConcScenarios(up *world.Upstream) []*concScenario {
 	return scs
 }
 
+// ---- C04: bearer tokens of two users (main issuer and extra issuer) verified at the same time
+
+func c04ConcScenarios(up *world.Upstream) []*concScenario {
+	type w04 struct {
+		px  *Proxy
+		tok map[string]string
+	}
+	var w *w04
+	reset, view := concIdentityView(up)
+	get := func() (*w04, string) {
+		if w != nil {
+			return w, ""
+		}
+		idp := world.NewIdP()
+		px, err := buildProxy(&ProxyCfg{Flags: append(baseFlags(up.URL()), "--email-domain=*", "--cookie-secure=false", "--skip-jwt-bearer-tokens=true",
+			"--extra-jwt-issuers="+world.Issuer2+"=api-aud", "--pass-user-headers=true")})
+		if err != nil {
+			return nil, err.Error()
+		}
+		x := &w04{px: px, tok: map[string]string{}}
+		for _, u := range []string{"alice", "bob"} {
+			x.tok["main:"+u] = idp.MintIDToken(idp.Users[u], &world.TokenSpec{DropNonce: true})
+			x.tok["extra:"+u] = idp.MintIDToken(idp.Users[u], &world.TokenSpec{DropNonce: true, Signer: "issuer2", Audience: "api-aud"})
+		}
+		// a service token of the extra issuer without e-mail and groups
+		x.tok["extra:svc"] = idp.MintIDToken(idp.Users["alice"], &world.TokenSpec{DropNonce: true, Signer: "issuer2", Audience: "api-aud",
+			Claims: map[string]any{"sub": "svc-42", "email": nil, "groups": nil, "preferred_username": nil, "email_verified": nil}})
+		// tokens that must be refused: wrong audience for each verifier
+		x.tok["main:wrong-aud"] = idp.MintIDToken(idp.Users["bob"], &world.TokenSpec{DropNonce: true, Audience: "someone-else"})
+		x.tok["extra:wrong-aud"] = idp.MintIDToken(idp.Users["bob"], &world.TokenSpec{DropNonce: true, Signer: "issuer2", Audience: "someone-else"})
+		w = x
+		return w, ""
+	}
+	mk := func(a, b, target string) *concScenario {
+		return &concScenario{Name: fmt.Sprintf("bearer %s | bearer %s on %s", a, b, target), prepare: func() (http.Handler, [2]*world.Req, func(int, *world.Resp) string, string) {
+			x, err := get()
+			if err != "" {
+				return nil, [2]*world.Req{}, nil, err
+			}
+			reset()
+			r := func(i int, k string) *world.Req {
+				return &world.Req{Method: "GET", Target: target, Host: "app.example.com", Headers: [][2]string{{"Authorization", "Bearer " + x.tok[k]}, {"X-Req", fmt.Sprint(i)}}}
+			}
+			return x.px.H, [2]*world.Req{r(0, a), r(1, b)}, view, ""
+		}}
+	}
+	var scs []*concScenario
+	for _, t := range []string{"/oauth2/userinfo", "/app"} {
+		scs = append(scs, mk("main:alice", "main:bob", t), mk("extra:alice", "extra:bob", t), mk("extra:alice", "extra:svc", t),
+			mk("main:alice", "main:wrong-aud", t), mk("extra:alice", "extra:wrong-aud", t), mk("main:alice", "extra:bob", t))
+	}
+	return scs
+}
+
 // concReplayFor dispatches a recorded concurrent case of one of the four lists.
 func concReplayFor(c *Ctx, id string, raw json.RawMessage) (string, bool) {
 	var cr0 concReplay
@@ -337,6 +391,8 @@ func concReplayFor(c *Ctx, id string, raw json.RawMessage) (string, bool) {
 	switch id {
 	case "C02":
 		scs = c02ConcScenarios(up)
+	case "C04":
+		scs = c04ConcScenarios(up)
 	case "C09":
 		scs = c09ConcScenarios(up)
 	case "C16":
@@ -353,6 +409,8 @@ func concRunFor(c *Ctx, id string) {
 	switch id {
 	case "C02":
 		concExplore(c, id, c02ConcScenarios(up), 1, 2)
+	case "C04":
+		concExplore(c, id, c04ConcScenarios(up), 1, 2)
 	case "C09":
 		concExplore(c, id, c09ConcScenarios(up), 1, 2)
 	case "C16":
